@@ -348,36 +348,78 @@ func init() {
 	}
 	in["runtime/debug.Stack"] = func(fr *frame, a []value) value { return []value{} }
 	in["internal/abi.NoEscape"] = func(fr *frame, a []value) value { return a[0] }
-	in["internal/bytealg.IndexByteString"] = func(fr *frame, a []value) value {
-		s, ok := a[0].(string)
-		if !ok {
-			panic(unsupported("bytealg.IndexByteString on a symbolic string"))
+	// byte searches over possibly symbolic strings: every byte comparison that involves a
+	// symbolic byte is a path decision
+	byteEq := func(fr *frame, p, q value) bool {
+		x := fr.i.x
+		pb, pc := p.(uint8)
+		qb, qc := q.(uint8)
+		if pc && qc {
+			return pb == qb
 		}
-		return strings.IndexByte(s, a[1].(byte))
+		toE := func(v value) *smt.Expr {
+			switch t := v.(type) {
+			case uint8:
+				return x.C.BV(8, uint64(t))
+			case *sym:
+				return t.E
+			}
+			panic(unsupported(fmt.Sprintf("byte comparison on %T", v)))
+		}
+		return x.Decide(x.C.Eq(toE(p), toE(q)), "byte search")
+	}
+	in["internal/bytealg.IndexByteString"] = func(fr *frame, a []value) value {
+		if s, ok := a[0].(string); ok {
+			if c, ok := a[1].(byte); ok {
+				return strings.IndexByte(s, c)
+			}
+		}
+		for i, b := range strBytes(a[0]) {
+			if byteEq(fr, b, a[1]) {
+				return i
+			}
+		}
+		return -1
 	}
 	in["internal/bytealg.IndexString"] = func(fr *frame, a []value) value {
 		s, ok1 := a[0].(string)
 		t, ok2 := a[1].(string)
-		if !ok1 || !ok2 {
-			panic(unsupported("bytealg.IndexString on a symbolic string"))
+		if ok1 && ok2 {
+			return strings.Index(s, t)
 		}
-		return strings.Index(s, t)
+		sb, tb := strBytes(a[0]), strBytes(a[1])
+		for i := 0; i+len(tb) <= len(sb); i++ {
+			match := true
+			for j := range tb {
+				if !byteEq(fr, sb[i+j], tb[j]) {
+					match = false
+					break
+				}
+			}
+			if match {
+				return i
+			}
+		}
+		return -1
 	}
 	in["internal/bytealg.CountString"] = func(fr *frame, a []value) value {
-		s, ok := a[0].(string)
-		if !ok {
-			panic(unsupported("bytealg.CountString on a symbolic string"))
+		if s, ok := a[0].(string); ok {
+			if c, ok := a[1].(byte); ok {
+				return strings.Count(s, string([]byte{c}))
+			}
 		}
-		return strings.Count(s, string([]byte{a[1].(byte)}))
+		n := 0
+		for _, b := range strBytes(a[0]) {
+			if byteEq(fr, b, a[1]) {
+				n++
+			}
+		}
+		return n
 	}
 	in["internal/bytealg.IndexByte"] = func(fr *frame, a []value) value {
 		bs := a[0].([]value)
 		for i, b := range bs {
-			bb, ok := b.(byte)
-			if !ok {
-				panic(unsupported("bytealg.IndexByte on symbolic bytes"))
-			}
-			if bb == a[1].(byte) {
+			if byteEq(fr, b, a[1]) {
 				return i
 			}
 		}
